@@ -158,12 +158,23 @@ func Program(prog int64, nops int, brKind int, withBase int) {
 				vp.Assert("error-names-an-unresolved-label", named)
 			}
 		}
+		retry(e, refs, &labelAt, missing, base, isOperand, before)
 		vp.Reach("failed")
 		return
 	}
 	if expectErr {
 		return
 	}
+	vp.Assert("every-reference-resolved-to-its-target", resolved(refs, &labelAt, base, after))
+	// Finalize on a finalized program: same verdict, nothing changes
+	fin := make([]byte, n)
+	copy(fin, after)
+	vp.Assert("a-repeated-finalize-succeeds-again", e.Finalize() == nil)
+	vp.Assert("a-repeated-finalize-changes-nothing", e.Len() == n && e.PC() == pc && vp.BytesEqual(e.Bytes(), fin))
+	vp.Reach("resolved")
+}
+
+func resolved(refs []ref, labelAt *[2]int, base uint32, after []byte) bool {
 	okOps := true
 	for _, r := range refs {
 		target := base + uint32(labelAt[r.label])
@@ -178,6 +189,44 @@ func Program(prog int64, nops int, brKind int, withBase int) {
 			}
 		}
 	}
-	vp.Assert("every-reference-resolved-to-its-target", okOps)
-	vp.Reach("resolved")
+	return okOps
+}
+
+// retry: the verdict of Finalize is a function of the program, not of earlier attempts. After a
+// failure, a second call with nothing changed fails again; once every missing label has been
+// defined (at the current end of the program) the outcome is again the one the books prescribe.
+func retry(e *asm.Emitter, refs []ref, labelAt *[2]int, missing [2]bool, base uint32, isOperand []bool, before []byte) {
+	vp.Assert("a-repeated-finalize-fails-again-while-the-cause-remains", e.Finalize() != nil)
+	n := e.Len()
+	for l := 0; l < 2; l++ {
+		if missing[l] {
+			labelAt[l] = n
+			e.Label(labelNames[l])
+		}
+	}
+	expectErr := false
+	for _, r := range refs {
+		if !r.wide {
+			d := labelAt[r.label] - (r.pos + 1)
+			if d > 127 || d < -128 {
+				expectErr = true
+			}
+		}
+	}
+	err := e.Finalize()
+	vp.Assert("finalize-fails-exactly-when-a-reference-is-unresolved-or-out-of-range", (err != nil) == expectErr)
+	after := e.Bytes()
+	same := len(after) == n
+	if same {
+		for i := 0; i < n; i++ {
+			if !isOperand[i] && after[i] != before[i] {
+				same = false
+			}
+		}
+	}
+	vp.Assert("only-operand-bytes-of-label-references-change", same)
+	if err == nil && !expectErr {
+		vp.Assert("every-reference-resolved-to-its-target", resolved(refs, labelAt, base, after))
+		vp.Reach("resolved-on-retry")
+	}
 }
